@@ -663,6 +663,7 @@ static void for_words(size_t n, const std::vector<int>& alphabet, F&& f) {
   }
 }
 
+static bool g_profile = false;
 static void series(Enumerator& en, char conv, const std::vector<int>& dims, const std::string& kind) {
   for (auto& mk : masks_for(dims)) {
     Case c;
@@ -683,6 +684,14 @@ static void series(Enumerator& en, char conv, const std::vector<int>& dims, cons
     else if (kind == "inf2") for_words(n, {0, INF_CODE}, go_inf);
     vf::stats().add("series." + kind);
   }
+  if (g_profile) {  // stderr only, never reaches the oracle or the counters
+    static double last = vf::now_s();
+    static long long lastc = 0;
+    double now = vf::now_s();
+    fprintf(stderr, "profile %s %c %s cases=%lld s=%.1f\n", kind.c_str(), conv, vf::join(dims).c_str(), en.counter - lastc, now - last);
+    last = now;
+    lastc = en.counter;
+  }
 }
 
 static void part_V(Enumerator& en, const vf::Args& a) {
@@ -694,7 +703,7 @@ static void part_V(Enumerator& en, const vf::Args& a) {
     if (want("weak")) {
       for (int d = 1; d <= 4; ++d) {
         int maxn;
-        if (th) maxn = (d <= 2) ? 7 : 6;
+        if (th) maxn = (d <= 2) ? 7 : (d == 3 ? 6 : 5);
         else maxn = (d <= 2) ? 6 : (d == 3 ? 5 : 4);
         for (auto& dims : dims_with_product(d, 1, maxn)) series(en, conv, dims, "weak");
       }
@@ -712,8 +721,8 @@ static void part_V(Enumerator& en, const vf::Args& a) {
       std::vector<std::vector<int>> bin_shapes = {{3, 3}, {1, 3, 3}, {3, 1, 3}, {9}, {1, 2, 2, 2}};
       std::vector<std::vector<int>> tern_shapes = {{2, 4}, {4, 2}, {7}, {2, 2, 2}};
       if (th) {
-        bin_shapes = {{3, 4}, {4, 3}, {2, 6}, {2, 2, 3}, {3, 2, 2}, {2, 3, 2}, {3, 1, 3}, {12}, {2, 2, 2, 1}, {3, 1, 1, 3}, {1, 3, 4}};
-        tern_shapes = {{3, 3}, {2, 4}, {4, 2}, {2, 5}, {5, 2}, {9}, {2, 2, 2}, {1, 3, 3}, {3, 3, 1}, {1, 2, 2, 2}, {2, 1, 2, 2}, {1, 1, 3, 3}};
+        bin_shapes = {{3, 4}, {4, 3}, {2, 6}, {2, 2, 3}, {3, 2, 2}, {2, 3, 2}, {3, 1, 3}, {3, 3, 1}, {12}, {2, 2, 2, 1}, {3, 1, 1, 3}, {1, 1, 3, 3}, {1, 3, 4}};
+        tern_shapes = {{3, 3}, {2, 4}, {4, 2}, {2, 5}, {5, 2}, {9}, {2, 2, 2}, {1, 3, 3}, {1, 2, 2, 2}, {2, 1, 2, 2}};
       }
       for (auto& dims : bin_shapes) series(en, conv, dims, "bin");
       for (auto& dims : tern_shapes) series(en, conv, dims, "tern");
@@ -741,6 +750,7 @@ int main(int argc, char** argv) {
   Enumerator en;
   en.shard = a.shard;
   en.nshards = a.nshards;
+  g_profile = a.geti("profile", 0) != 0;
   std::string part = a.get("part", "S");
   if (part == "S") part_S(en, a);
   else part_V(en, a);
